@@ -250,7 +250,7 @@ def run_unit(unit, tier="quick", want_canary=True):
     # every tagged function must have been looked at by the verifier
     names = list(res.fn_times.keys())
     for f in fns:
-        if not any(nm.endswith("::" + f.name) for nm in names):
+        if not any(nm.endswith("::" + f.simple) for nm in names):
             # functions with no SMT query (e.g. trivial) still appear; absence means it was not verified
             if res.status == "ok":
                 res.status = "undecided"
@@ -353,7 +353,7 @@ def main():
                 drops.append(f"{oid}: {rule}: {orig[:120]}")
             tm = None
             for nm, v in r.fn_times.items():
-                if nm.endswith("::" + f.name):
+                if nm.endswith("::" + f.simple):
                     tm = v
             rec = {"id": oid, "kind": f.kind, "source": (f"{f.src}:{f.src_first_line} {f.qual}" if f.src else "template lemma"),
                    "solver_ms": tm["ms"] if tm else None, "rlimit": tm["rlimit"] if tm else None, "backend": "verus/z3"}
